@@ -1012,3 +1012,114 @@ func returnOperandOr(r *ssa.Return, i int) ssa.Value {
 	}
 	return r.Results[i]
 }
+
+func init() {
+	register(&Rule{ID: "C08.lockless", Floor: 1,
+		Text: "a map held in a struct of memfs / orefafs / memidm that carries no mutex of its own (MemFS: every view made by Sub shares the maps of the struct it was copied from) is filled while the object is built and never written afterwards: a later insertion or deletion has no lock it could share with the readers of the map (the path walk reads the volume table on every call), which the runtime answers with a data race or 'concurrent map read and map write'",
+		Run:  c08Lockless})
+}
+
+// structHasMutex: the struct, or a struct it embeds / holds by value, has a field of a type of package sync.
+func structHasMutex(st *types.Struct, depth int) bool {
+	if depth > 4 {
+		return false
+	}
+	for i := 0; i < st.NumFields(); i++ {
+		ft := st.Field(i).Type()
+		if n := namedOf(ft); n != nil && n.Obj().Pkg() != nil && n.Obj().Pkg().Path() == "sync" {
+			return true
+		}
+		if inner, ok := ft.Underlying().(*types.Struct); ok && structHasMutex(inner, depth+1) {
+			return true
+		}
+	}
+	return false
+}
+
+func c08Lockless(rc *RuleCtx) {
+	for _, pk := range []string{"memfs", "orefafs", "memidm"} {
+		p := rc.C.pkg(pk)
+		if p == nil {
+			rc.anchor(pk)
+			continue
+		}
+		// structs without a mutex that hold maps
+		lockless := map[*types.Named]bool{}
+		sc := p.Types.Scope()
+		for _, nmn := range sc.Names() {
+			tn, ok := sc.Lookup(nmn).(*types.TypeName)
+			if !ok {
+				continue
+			}
+			named, ok := tn.Type().(*types.Named)
+			if !ok {
+				continue
+			}
+			st, ok := named.Underlying().(*types.Struct)
+			if !ok {
+				continue
+			}
+			hasMu, hasMap := structHasMutex(st, 0), false
+			for i := 0; i < st.NumFields(); i++ {
+				if _, isMap := st.Field(i).Type().Underlying().(*types.Map); isMap {
+					hasMap = true
+				}
+			}
+			if hasMap && !hasMu {
+				lockless[named] = true
+			}
+		}
+		if len(lockless) == 0 {
+			continue
+		}
+		fieldOfLockless := func(m ssa.Value) (string, bool) {
+			ld, ok := m.(*ssa.UnOp)
+			if !ok || ld.Op != token.MUL {
+				return "", false
+			}
+			fa, ok := ld.X.(*ssa.FieldAddr)
+			if !ok {
+				return "", false
+			}
+			n := namedOf(derefType(fa.X.Type()))
+			if n == nil || !lockless[n] {
+				return "", false
+			}
+			return n.Obj().Name() + "." + fieldName(fa.X.Type(), fa.Field), true
+		}
+		seen := map[string]bool{}
+		for _, f := range rc.C.srcFuncs(pk) {
+			if rc.C.inlinedAway(f) || f.Synthetic != "" {
+				continue
+			}
+			eachInstr(f, func(in ssa.Instruction) {
+				var m ssa.Value
+				switch x := in.(type) {
+				case *ssa.MapUpdate:
+					m = x.Map
+				case *ssa.Call:
+					if b, ok := x.Call.Value.(*ssa.Builtin); ok && (b.Name() == "delete" || b.Name() == "clear") && len(x.Call.Args) > 0 {
+						m = x.Call.Args[0]
+					}
+				}
+				if m == nil {
+					return
+				}
+				fld, ok := fieldOfLockless(m)
+				if !ok {
+					return
+				}
+				cons := funcName(f) + " writes " + fld
+				if seen[cons] {
+					return
+				}
+				seen[cons] = true
+				if f.Signature.Recv() == nil {
+					rc.good(cons, in.Pos(), "written while the object is built")
+				} else {
+					rc.bad(cons, in.Pos(), "the map is written after construction and the struct has no lock: a call that reads it in another goroutine (every path walk, for the volume table) races with this write")
+				}
+			})
+		}
+	}
+}
